@@ -115,7 +115,7 @@ func (ic *importClient) Send(ctx context.Context, s capnp.Send) (*capnp.Answer, 
 	ic.c.mu.Lock()
 	ic.c.unlockSender() // Can't be holding either lock while calling PlaceArgs.
 	ic.c.mu.Unlock()
-	err = ic.c.newImportCallMessage(msg, ic.id, q.id, s)
+	params, err := ic.c.newImportCallMessage(msg, ic.id, q.id, s)
 	if err != nil {
 		ic.c.mu.Lock()
 		ic.c.questions[q.id] = nil
@@ -142,6 +142,7 @@ func (ic *importClient) Send(ctx context.Context, s capnp.Send) (*capnp.Answer, 
 		ic.c.questions[q.id] = nil
 		ic.c.questionID.remove(uint32(q.id))
 		ic.c.mu.Unlock()
+		params.release()
 		return capnp.ErrorAnswer(s.Method, errorf("send message: %v", err)), func() {}
 	}
 	q.c.tasks.Add(1)
@@ -150,6 +151,7 @@ func (ic *importClient) Send(ctx context.Context, s capnp.Send) (*capnp.Answer, 
 		q.handleCancel(ctx)
 	}()
 	ic.c.mu.Unlock()
+	params.release()
 
 	ans := q.p.Answer()
 	return ans, func() {
@@ -162,33 +164,33 @@ func (ic *importClient) Send(ctx context.Context, s capnp.Send) (*capnp.Answer, 
 // newImportCallMessage builds a Call message targeted to an import.
 //
 // The caller MUST NOT be holding onto c.mu or the sender lock.
-func (c *Conn) newImportCallMessage(msg rpccp.Message, imp importID, qid questionID, s capnp.Send) error {
+func (c *Conn) newImportCallMessage(msg rpccp.Message, imp importID, qid questionID, s capnp.Send) (releaseList, error) {
 	call, err := msg.NewCall()
 	if err != nil {
-		return errorf("build call message: %v", err)
+		return nil, errorf("build call message: %v", err)
 	}
 	call.SetQuestionId(uint32(qid))
 	call.SetInterfaceId(s.Method.InterfaceID)
 	call.SetMethodId(s.Method.MethodID)
 	target, err := call.NewTarget()
 	if err != nil {
-		return errorf("build call message: %v", err)
+		return nil, errorf("build call message: %v", err)
 	}
 	target.SetImportedCap(uint32(imp))
 	payload, err := call.NewParams()
 	if err != nil {
-		return errorf("build call message: %v", err)
+		return nil, errorf("build call message: %v", err)
 	}
 	args, err := capnp.NewStruct(payload.Segment(), s.ArgsSize)
 	if err != nil {
-		return errorf("build call message: %v", err)
+		return nil, errorf("build call message: %v", err)
 	}
 	if err := payload.SetContent(args.ToPtr()); err != nil {
-		return errorf("build call message: %v", err)
+		return nil, errorf("build call message: %v", err)
 	}
 
 	if s.PlaceArgs == nil {
-		return nil
+		return nil, nil
 	}
 	m := args.Message()
 	if err := s.PlaceArgs(args); err != nil {
@@ -196,18 +198,21 @@ func (c *Conn) newImportCallMessage(msg rpccp.Message, imp importID, qid questio
 			c.Release()
 		}
 		m.CapTable = nil
-		return errorf("place arguments: %v", err)
+		return nil, errorf("place arguments: %v", err)
 	}
 	clients, states := extractCapTable(m)
 	c.mu.Lock()
 	// TODO(soon): save param refs
 	_, err = c.fillPayloadCapTable(payload, clients, states)
 	c.mu.Unlock()
-	releaseList(clients).release()
 	if err != nil {
-		return annotate(err).errorf("build call message")
+		releaseList(clients).release()
+		return nil, annotate(err).errorf("build call message")
 	}
-	return nil
+	// The descriptors refer to the clients (an import sent back to its
+	// host is named by its import ID), so the caller must hold on to
+	// them until the message has been sent.
+	return releaseList(clients), nil
 }
 
 func (ic *importClient) Recv(ctx context.Context, r capnp.Recv) capnp.PipelineCaller {
